@@ -3148,6 +3148,19 @@ func (bc *Blockchain) IsTxStillRelevant(t *transaction.Transaction, txpool *memp
 	if t.ValidUntilBlock <= curheight {
 		return false
 	}
+	// The committee can block a signer, raise the fees or shorten the validity
+	// window at any block; a transaction that is no longer valid must not stay
+	// in the pool, since pooled transactions are not verified again when they
+	// come in a block.
+	if !isPartialTx && t.ValidUntilBlock > curheight+bc.GetMaxValidUntilBlockIncrement() {
+		return false
+	}
+	if bc.policy.CheckPolicy(bc.dao, t) != nil {
+		return false
+	}
+	if t.NetworkFee < int64(t.Size())*bc.FeePerByte()+bc.CalculateAttributesFee(t) {
+		return false
+	}
 	if txpool == nil {
 		if bc.dao.HasTransaction(t.Hash(), t.Signers, curheight, bc.GetMaxTraceableBlocks()) != nil {
 			return false
